@@ -89,7 +89,14 @@ func (s *Service) submitAttestations(ctx context.Context,
 	_, address := s.serviceInfo(ctx, submitter)
 	started := time.Now()
 	_, err := util.Scatter(len(attestations), int(s.processConcurrency), func(offset int, entries int, _ *sync.RWMutex) (interface{}, error) {
-		return nil, submitter.SubmitAttestations(ctx, attestations[offset:offset+entries])
+		err := submitter.SubmitAttestations(ctx, attestations[offset:offset+entries])
+		if err != nil {
+			// Judge each chunk's error on its own: a rejection of one chunk that we tolerate
+			// must not hide a genuine failure of another.
+			err = s.handleAttestationsError(ctx, submitter, err)
+		}
+
+		return nil, err
 	})
 	if err != nil {
 		err = s.handleAttestationsError(ctx, submitter, err)
